@@ -18,6 +18,9 @@ Strategies
                                                                                 -> contradiction skipping
   StatSplitAlphabet  Cartesian product of two non-atoms (a block over some letters, then a block over the
                   others); each parent parameter is mapped to ONE factor only
+  AddStat         (only in stat_pack_add) unary union from a class tracking nothing to the same class tracking
+                  one letter: the child has a statistic the parent lacks            -> `fixed_values` of
+                  EquivalencePathRule (known finding "eqpath-child-statistic-untracked-by-parent-sampling")
   StatAtom        verification of a single word, with parameters (the repo's AtomStrategy refuses them)
 """
 from collections import Counter, defaultdict
@@ -248,6 +251,26 @@ class MergeDuplicate(_Base, DisjointUnionStrategy):
         return (word,)
 
 
+class AddStat(_Base, DisjointUnionStrategy):
+    """A class tracking nothing is the same set of words as the class tracking the number of a's: unary
+    union whose child carries a statistic that NO parent statistic maps to (extra_parameters = ({},)).
+    Counting handles it (DisjointUnion.get_terms sums over the child's values).  Only in `stat_pack_add`."""
+
+    def __init__(self):
+        super().__init__(ignore_parent=True, inferrable=True, possibly_empty=False, workable=True)
+
+    def decomposition_function(self, c):
+        if c.stats or c.just_prefix:
+            return None
+        return (c.with_(stats=(c.alphabet[0],)),)
+
+    def extra_parameters(self, comb_class, children=None):
+        return ({},)
+
+    def forward_map(self, comb_class, word, children=None):
+        return (word,)
+
+
 class StatAtom(_Base, AtomStrategy):
     """AtomStrategy for classes with parameters (the repo's raises NotImplementedError there)"""
 
@@ -277,7 +300,16 @@ stat_pack = StrategyPack(
 )
 
 
-def stat_spec(prefix, patterns, alphabet, stats):
+stat_pack_add = StrategyPack(
+    initial_strats=[AddStat(), StatRemoveFront(), StatSplitAlphabet(), DropZeroStat(), MergeDuplicate()],
+    inferral_strats=[],
+    expansion_strats=[[StatExpansion()]],
+    ver_strats=[StatAtom()],
+    name="words with statistics, a statistic added on the way",
+)
+
+
+def stat_spec(prefix, patterns, alphabet, stats, add=False):
     start = StatWord(prefix, patterns, list(alphabet), False, tuple(stats))
-    searcher = CombinatorialSpecificationSearcher(start, stat_pack)
+    searcher = CombinatorialSpecificationSearcher(start, stat_pack_add if add else stat_pack)
     return searcher.auto_search()
